@@ -162,6 +162,15 @@ def run_slices(exe, args, nslices=NCPU, timeout=None, env=None, result=None, tag
     return res
 
 
+def selftest(exe, what):
+    """planted-bug self-test: the explorer run with --plant must report violations, else the harness is broken"""
+    r = sh([exe, '--plant'])
+    m = re.search(r'"violations":(\d+)', r.stdout)
+    if r.returncode != 0 or not m or int(m.group(1)) == 0:
+        die_infra('planted-bug self-test of %s did not fire (rc=%s): a harness that cannot fail is broken' % (what, r.returncode))
+    return int(m.group(1))
+
+
 # --------------------------------------------------------------------------
 def load_findings():
     opens, fixed = {}, []
